@@ -931,6 +931,10 @@ func (f *Fn) Reach(from ast.Node, stop func(n ast.Node) bool, cut func(b *cfg.Bl
 			}
 		}
 		if len(p.b.Succs) == 0 {
+			if p.b.Kind == cfg.KindSelectAfterCase && len(p.b.Nodes) == 0 {
+				// "no case ready" of a select without default: it blocks, it is not an exit
+				return
+			}
 			ex := cfgExit{B: p.b, Kind: exitFallOff}
 			if len(p.b.Nodes) > 0 {
 				switch last := p.b.Nodes[len(p.b.Nodes)-1].(type) {
